@@ -27,6 +27,7 @@ EXPLANATION = (
     " Round-4 triage: (12) content_delta pairs cviews by screen column - the unchanged marker is produced from column lists computed with the shard tails, and both tails are carried forward for every shard consumed or stepped over; each column list pairs a shard's cviews with the tail of the same canvas. Round 5: (13) the two content-iterator sites of shard_body() pass canv.content() the same arguments."
     ' Round 6: (12c) the shard comparison of shards_delta is reached only under a test ordering the two row counters (row alignment); (14) ALIAS: coords / shortcuts are never shared with the wrapped canvas.'
     ' Round 7: (15) the unchanged test of content_delta compares the canvas and all five leading cview fields; (16) SIB: cview_trim_top / cview_trim_left are mirror images under the axis swap (offset + trim, extent - trim); (17) POSBOUND over canvas.py: the cursor kept after a trim is tested half-open against cols() / rows(); (18) PASS: overlay() tests the covered canvas\' cursor against the covered rectangle and drops it before the overlaid canvas\' coordinates are merged (fix d4fb084).'
+    ' Round 8: (19) ORDER: self.<attr> is not read again after its working copy was replaced by a processed value and before the write-back.'
 )
 NOT_DECIDED = "Cell-for-cell equality with the grid model, the width arithmetic of cutting wide characters, content_delta round trip - statements about values of the shard algebra."
 ASSUMPTIONS = []
